@@ -103,6 +103,11 @@ class C06(Check):
         assert len(self.paths) == 64 and len(self.forests) == 211, (len(self.paths), len(self.forests))
         self.stride = 8
         self._el = {}
+        # derived values with leading zero bytes, found by search before forking
+        for signer in ["root"] + NAMES:
+            self.world.zero_tweak(signer, 1)
+            self.world.zero_tweak(signer, 2)
+        self.zero_worlds = {"x": G.V1World("c06-zx", zero="x"), "y": G.V1World("c06-zy", zero="y")}
         self.hangs = multiprocessing.get_context("fork").Value("i", 0)
         # disagreements on the documented sample are violations like any other (framework merges them)
         self.pre_violations = self.calibrate()
@@ -167,7 +172,9 @@ class C06(Check):
             "other-hierarchy-key", "tweak-declared-not-used", "tweak-used-not-declared", "other-tweak",
             "double-sha256", "high-s", "padded-der", "wrong-root", "negated-root", "compressed-root", "hybrid-root",
             "key-compressed", "key-hybrid", "certifier-not-a-key",
-            "hex spellings of every field of the genuine chain: " + ", ".join(G.HEX_SPELLINGS)]}
+            "hex spellings of every field of the genuine chain: " + ", ".join(G.HEX_SPELLINGS),
+            "genuine with leading zero bytes in: tweak HMAC (1, 2 bytes), signature r, s, message digest, "
+            "public key X, Y (whole hierarchies)"]}
 
     def cases(self):
         cs = []
@@ -184,8 +191,11 @@ class C06(Check):
                 cs.append({"kind": "path", "path": i, "mask": mask})
         for i in range(len(self.forests)):
             cs.append({"kind": "forest", "idx": i})
+        for z in ("x", "y"):
+            for k in range(1, 5):
+                cs.append({"kind": "zero-world", "coord": z, "len": k})
         # longest first
-        order = {"path": 0, "forest": 1, "shapes": 2}
+        order = {"path": 0, "forest": 1, "shapes": 2, "zero-world": 3}
         cs.sort(key=lambda c: (order[c["kind"]], -len(self.paths[c["path"]]) if c["kind"] == "path" else 0))
         return cs
 
@@ -228,6 +238,8 @@ class C06(Check):
                 self.run_path(self.paths[case["path"]], case["mask"], stats, vs)
             elif k == "forest":
                 self.run_forest(self.forests[case["idx"]], stats, vs)
+            elif k == "zero-world":
+                self.run_zero_world(case, stats, vs)
         except _Enough:
             stats.bump("capped")
         return vs
@@ -261,6 +273,22 @@ class C06(Check):
                     doc = {"version": 1, "targets": list(present),
                            "elements": [self.element(n, sb, tw, False) for n, sb, tw in shape]}
                     self.evaluate(doc, root, "certifier-not-a-key", stats, vs)
+
+    # ---- (a') hierarchies whose public keys have a leading zero byte in X / in Y -------------------
+    def run_zero_world(self, case, stats, vs):
+        w = self.zero_worlds[case["coord"]]
+        root = w.pub("root")
+        for path in itertools.permutations(NAMES, case["len"]):
+            for mask in sorted({0, (1 << len(path)) - 1, 0b0101 & ((1 << len(path)) - 1)}):
+                shape = [(n, "root" if i == 0 else path[i - 1], bool(mask >> i & 1)) for i, n in enumerate(path)]
+                for targets in ([path[-1]], list(path)):
+                    doc = w.doc(shape, targets)
+                    exp = self.evaluate(doc, root, "genuine-zero-" + case["coord"], stats, vs)
+                    if any(v[0] != R.OK for v in exp.values()):
+                        raise HarnessError("genuine chain (zero-coordinate keys) not valid for the reference")
+                self.evaluate(w.doc(shape, [path[-1]]), w.pub("root", compressed=True), "compressed-root",
+                              stats, vs)
+                self.evaluate(w.doc(shape, [path[-1]]), w.pub("stranger"), "wrong-root", stats, vs)
 
     # ---- (b) corruptions along a path -------------------------------------------------
     def run_path(self, path, mask, stats, vs):
@@ -366,6 +394,28 @@ class C06(Check):
                 nm = pmsg[:koff] + w.pub("stranger")
                 run(variant(p - 1, message=nm.hex(), signature=w.sign(psigner, ptw, nm).hex()),
                     "key-replaced")
+            # genuine elements whose DERIVED values have leading zero bytes: the tweak scalar
+            # HMAC-SHA256(tweak, certifier key), the signature's r and s, the message digest
+            if tweak is not None:
+                for nz in (1, 2):
+                    zt = w.zero_tweak(signer_key, nz)
+                    run(variant(p, tweak=zt.hex(), signature=w.sign(signer_key, zt, msg).hex()),
+                        "genuine-zero-hmac")
+            if not certifies or name == "device":
+                if name == "device":
+                    def make(i, _pub=w.pub(name)):
+                        return w.prefix + i.to_bytes(2, "big") + _pub
+                elif name == "attestation":
+                    def make(i, _pub=w.pub(name)):
+                        return bytes([i % 256]) + _pub
+                else:
+                    def make(i, _m=w.leafmsg[name]):
+                        return _m + i.to_bytes(2, "big")
+                for what in ("r", "s", "digest"):
+                    zm = w.searched_message(name, signer_key, tweak, what, make)
+                    if zm is not None:
+                        run(variant(p, message=zm.hex(), signature=w.sign(signer_key, tweak, zm).hex()),
+                            "genuine-zero-" + what)
             # genuine elements with other message lengths / prefixes (extraction is by the
             # documented slice, not by a fixed offset)
             pub = w.pub(name)
